@@ -712,6 +712,7 @@ func init() {
 			if tier == "thorough" {
 				us = append(us, c08Wide(vh.Memory, 96))
 			}
+			us = append(us, c08BinaryMaxHosts())
 			return us
 		},
 	})
